@@ -599,3 +599,29 @@ Proof.
   repeat split; vm_compute; reflexivity.
 Qed.
 Print Assumptions extender_overlap_refuted.
+
+(* C03-K10 chain_spanning_anchor_wrong_side.  Circular record of 12000 bases, cutoff 2000, all four genes anchors of the rule:
+   g5 = [7000:12000)+[0:20) spans the origin, g0 [50:80) follows it, g2 [5000:5800) lies 1200 before it, g1 [2500:2800) is 2420
+   after g0 and 2200 before g2: the maximal chains are {g2, g5, g0} (shortest covering arc [5000:12000)+[0:80), 7080 > N/2) and {g1}.
+   find_protoclusters' first/last wrap test joins g2 to the core of g5..g0 with connect_locations, which - having an
+   origin-bridging argument - puts every other location on the side of the origin whose END OF THE RECORD its middle is
+   nearer to: g2 (middle 5400 < 6000) goes AFTER the origin, the joined core is [7000:12000)+[0:5800) (10800 long), it covers g1,
+   and merge_over_origin absorbs g1's protocluster: one protocluster instead of two. *)
+Lemma spanning_chain_wrong_side_refuted : exists N gs hs rules p far,
+  pipeline N true gs hs rules true = Ok [p] /\ In far gs /\ contains (p_core p) (snd far) = true /\
+  (forall g, In g gs -> g <> far -> r_cut (nth_rule rules 0) <= dist (snd far) (snd g) (Some N)) /\
+  connect_locations [[mkPart 5000 5800 1]; [mkPart 7000 12000 1; mkPart 0 80 1]] (Some N)
+    = Ok [mkPart 7000 12000 1; mkPart 0 5800 1] /\
+  contains [mkPart 5000 12000 1; mkPart 0 80 1] [mkPart 5000 5800 1] = true /\
+  contains [mkPart 5000 12000 1; mkPart 0 80 1] [mkPart 7000 12000 1; mkPart 0 80 1] = true.
+Proof.
+  exists 12000, [(5, [mkPart 7000 12000 1; mkPart 0 20 1]); (0, [mkPart 50 80 (-1)]); (1, [mkPart 2500 2800 1]); (2, [mkPart 5000 5800 1])],
+         [(0, [(0, 0)]); (1, [(0, 0)]); (2, [(0, 0)]); (5, [(0, 0)])],
+         [mkRule 2000 0 (C01.Model.Single false 0) None []].
+  exists (0, [mkPart 7000 12000 1; mkPart 0 5800 1], [mkPart 7000 12000 1; mkPart 0 5800 1]), (1, [mkPart 2500 2800 1]).
+  split; [vm_compute; reflexivity|]. split; [repeat (first [left; reflexivity | right])|].
+  split; [vm_compute; reflexivity|].
+  split; [|repeat split; vm_compute; reflexivity].
+  intros g [<-|[<-|[<-|[<-|[]]]]] Hne; try (exfalso; apply Hne; reflexivity); vm_compute; discriminate.
+Qed.
+Print Assumptions spanning_chain_wrong_side_refuted.
